@@ -145,7 +145,7 @@ def rule_r3(chk, p, t):
         from rsa.terms import inline_locals
 
         e = inline_locals(fn, rets[0].value)
-        if not (isinstance(e, ast.Call) and call_name(e) == "ecef2eci" and len(e.args) == 2):
+        if not (isinstance(e, ast.Call) and call_name(e) == "ecef2eci" and len(e.args) >= 2):
             r.violation(fn.qualname, f"return:{unparse(e)}", f"propagate returns `{unparse(e)}`, expected ecef2eci(self.x_ecef, instant)", fn.loc(rets[0]))
             return
         st, inst = e.args
@@ -170,6 +170,42 @@ def rule_r3(chk, p, t):
             and inst.right.keywords[0].arg == "seconds"
             and unparse(inst.right.keywords[0].value) == "final_time"
         )
+        # nothing else the conversion is given may come from another epoch: the Earth orientation (precession, nutation,
+        # polar motion, UT1-UTC, length of day) is that of the instant itself
+        cls = fn.cls
+        init = cls.methods.get("__init__")
+        captured = {}
+        if init is not None:
+            for n in walk_no_nested(init.node):
+                if isinstance(n, ast.Assign) and len(n.targets) == 1 and isinstance(n.targets[0], ast.Attribute) and unparse(n.targets[0].value) == "self":
+                    captured[n.targets[0].attr] = n.value
+
+        def self_reads(expr, meth, depth=0, seen=None):
+            """self attributes the value of `expr` (evaluated in method `meth`) is computed from, through self-method calls."""
+            seen = seen if seen is not None else set()
+            out = set()
+            for n in ast.walk(expr):
+                if isinstance(n, ast.Attribute) and isinstance(n.value, ast.Name) and n.value.id == "self":
+                    callee = cls.methods.get(n.attr) or p.lookup_method(cls, n.attr)
+                    if callee is not None and callee.qualname not in seen and depth < 3:
+                        seen.add(callee.qualname)
+                        out |= self_reads(ast.Module(body=callee.node.body, type_ignores=[]), callee, depth + 1, seen)
+                    elif callee is None:
+                        out.add(n.attr)
+            return out
+
+        extras = list(e.args[2:]) + [k.value for k in e.keywords]
+        for x in extras:
+            if isinstance(x, ast.Call) and unparse(x.func).endswith("ReductionParams.build") and len(x.args) == 1 and unparse(x.args[0]) == unparse(inst):
+                r.ok(fn.qualname + ":orientation", "the reduction handed over is built for the instant itself", fn.loc(rets[0]))
+                continue
+            reads = self_reads(x, fn) - {"x_ecef"}
+            stale = sorted(a for a in reads if a in captured and a != "datetime_start")
+            if stale:
+                a = stale[0]
+                r.violation(fn.qualname + ":orientation", f"orientation-carried:{a}", f"ecef2eci is additionally given `{unparse(x)[:60]}`, computed from `self.{a}` = `{unparse(captured[a])[:60]}` - evaluated once when the dynamics object was built: Earth-orientation quantities of the START epoch are reused at every later epoch (precession / nutation / UT1-UTC drift away with elapsed time, UT1-UTC jumps at a leap second), so the site slides off its configured location as the run goes on", fn.loc(rets[0]))
+            else:
+                raise Undecided(f"ecef2eci is additionally given `{unparse(x)[:80]}`", rets[0])
         if good:
             r.ok(fn.qualname + ":instant", "self.datetime_start + timedelta(seconds=final_time)", fn.loc(rets[0]))
         else:
